@@ -16,8 +16,8 @@ ID = "C12"
 CASES = {"quick": 4000, "thorough": 50000}
 FLOOR = {"quick": 3500, "thorough": 45000}
 FLOOR_COUNTERS = {
-    "quick": {"tiny_magnitude_kernels": 250, "normalizer_fits": 1800, "sparse_fits": 1800, "test_kernels_judged": 3500, "weighted_fits": 2000, "estimators_with_a_past": 2500, "fewer_samples_than_active_points": 200, "in_place_entry_points": 3000, "non_default_containers": 1500, "tiny_magnitude_weights": 400, "more_than_2048_samples": 60},
-    "thorough": {"tiny_magnitude_kernels": 3000, "normalizer_fits": 22000, "sparse_fits": 22000, "test_kernels_judged": 45000, "weighted_fits": 25000, "estimators_with_a_past": 30000, "fewer_samples_than_active_points": 2500, "in_place_entry_points": 40000, "non_default_containers": 20000, "tiny_magnitude_weights": 5000, "more_than_2048_samples": 800},
+    "quick": {"tiny_magnitude_kernels": 250, "normalizer_fits": 1800, "sparse_fits": 1800, "test_kernels_judged": 3500, "weighted_fits": 2000, "estimators_with_a_past": 2500, "fewer_samples_than_active_points": 200, "in_place_entry_points": 3000, "non_default_containers": 1500, "tiny_magnitude_weights": 400, "more_than_2048_samples": 60, "rejected_calls_in_the_history": 1200, "aliased_kernel_arguments": 150},
+    "thorough": {"tiny_magnitude_kernels": 3000, "normalizer_fits": 22000, "sparse_fits": 22000, "test_kernels_judged": 45000, "weighted_fits": 25000, "estimators_with_a_past": 30000, "fewer_samples_than_active_points": 2500, "in_place_entry_points": 40000, "non_default_containers": 20000, "tiny_magnitude_weights": 5000, "more_than_2048_samples": 800, "rejected_calls_in_the_history": 15000, "aliased_kernel_arguments": 2000},
 }
 RULE = (
     "case = explicit features F (n 2-30, f 1-8, offset so that centring matters), test features (1-40 rows), weights "
@@ -65,7 +65,7 @@ def gen(rng, tier, index):
         Ft = rng.normal(size=(nt, f)) * 10.0 ** rng.uniform(-1, 1, size=f) + off
         M = int(rng.integers(n + 1, n + 10))
     if rng.random() < 0.5 and not few:
-        Fa = F[rng.permutation(n)[: min(M, n)]].copy()
+        Fa = F[rng.permutation(n)[: min(M, n)]].copy() if rng.random() < 0.5 else F[: min(M, n)].copy()
     else:
         Fa = rng.normal(size=(M, f)) * float(np.abs(F - off).std() or 1.0) + off
     return {
@@ -82,6 +82,8 @@ def gen(rng, tier, index):
         "few": bool(few),
         "xform": gens.pick(rng, forms.PRESENT),
         "carry": gens.pick(rng, forms.CARRY),
+        "reject": bool(rng.random() < 0.4),
+        "alias": bool(rng.random() < 0.5),
         "past": bool(rng.random() < 0.4),  # the estimator has been fitted before (other kernel, weights, flags)
         "pseed": int(rng.integers(1 << 30)),
     }
@@ -137,6 +139,10 @@ def _run_normalizer(case, j):
     sw = None if w is None else w.copy()
     j.lib("fit", est.fit, K.copy(), sample_weight=sw)
     est = forms.carry(est, case.get("carry", "same"), j)
+    if case.get("reject"):
+        # a failure in the history: refits with unusable weights are refused; the fitted normaliser stays what it was
+        forms.rejected(j, "refit with sample weights of another length", est.fit, K.copy(), sample_weight=np.ones(n + 2))
+        forms.rejected(j, "refit with 2-D sample weights", est.fit, K.copy(), sample_weight=np.ones((n, 2)))
     j.note("normalizer_fits")
     tol = 1e-9 * mag / s
     Tk = np.asarray(est.transform(K.copy()))
@@ -191,7 +197,15 @@ def _run_sparse(case, j):
         raise Skip("centred-nystrom-trace-vanishes")
     s = np.sqrt(tr) if wt else 1.0
     est = _with_a_past(j, case, SparseKernelCenterer, n, len(Fa))
-    j.lib("fit", est.fit, Knm.copy(), Kmm.copy(), sample_weight=None if w is None else w.copy())
+    if case.get("alias") and len(Fa) <= n and np.array_equal(F[: len(Fa)], Fa):
+        # the two kernels are views of ONE kernel matrix (the active points are the first training points)
+        Kfull = F @ F.T
+        Kn_, Km_ = Kfull[:, : len(Fa)], Kfull[: len(Fa), : len(Fa)]
+        j.lib("fit", est.fit, Kn_, Km_, sample_weight=None if w is None else w.copy())
+        j.ok("kernels passed as views of one matrix are what they were", np.array_equal(Kfull, F @ F.T))
+        j.note("aliased_kernel_arguments")
+    else:
+        j.lib("fit", est.fit, Knm.copy(), Kmm.copy(), sample_weight=None if w is None else w.copy())
     j.note("sparse_fits")
     est = forms.carry(est, case.get("carry", "same"), j)
     T = np.asarray(est.transform(Knm.copy()))
